@@ -318,3 +318,490 @@ def parse_strace(log_path, ctx_dir):
         if not getattr(c, "closed", False):
             raise Inconclusive(f"strace: no END marker for case {c.id}")
     return cases
+
+
+# --------------------------------------------------------------------------- findings
+PROP = "C06"
+
+
+def known_findings(ctx):
+    """findings.d/F06*.json is the source of KNOWN_FINDINGS.json (bin/mkmanifest); read it directly so that the
+    check does not depend on the generated file being fresh."""
+    import glob
+    ids = set(lib.known_ids(ctx, PROP))
+    have = {f["id"] for f in ctx.known.get("findings", [])}
+    fixed = " ".join(ctx.known.get("fixed", []))
+    for p in sorted(glob.glob(os.path.join(lib.ROOT, "findings.d", "F06*.json"))):
+        f = json.load(open(p))
+        if f.get("property") == PROP and f.get("status", "known") == "known" and f["what"] not in fixed:
+            ids.add(f["id"])
+            if f["id"] not in have:
+                ctx.known.setdefault("findings", []).append(f)
+    # development aid (like VERIF_REPO): judge a scratch worktree that carries a proposed fix as if the finding
+    # were already recorded as fixed, e.g. VERIF_C06_KNOWN=F06b.  Registered commands never set it.
+    if "VERIF_C06_KNOWN" in os.environ and lib.REPO != "/repo":
+        ids = {x for x in os.environ["VERIF_C06_KNOWN"].split(",") if x}
+    return sorted(ids)
+
+
+# --------------------------------------------------------------------------- stage 1: models + cases
+MODEL_ROUTINES = [("index", False), ("res", False), ("disk", False), ("lru_fixed", False),
+                  ("lru", True), ("lru_inplace", True), ("journal", True)]   # (routine, refutation expected)
+FS_CONSTS = {"FineLimit": 4096, "SampleSeed": 1, "SampleN": 8}
+
+
+def model_check(ctx):
+    """TLC on the protocol models: Recover in {Old, New} for every crash instant x disk state."""
+    res = {}
+    shapes = {}
+
+    def one(rt):
+        routine, expect = rt
+        cfg = ctx.path(f"mc_{routine}.cfg")
+        lib.write_cfg(cfg, dict(FS_CONSTS, Routine=f'"{routine}"', MaxSaves=3, Strict="FALSE", D=0),
+                      "MCInit", "MCNext", invariants=["OldOrNew", "ShapeOut"])
+        r = lib.tlc(ctx, MODULE_MC, cfg, workers=2, timeout=600, expect_violation=True, heap="2g")
+        return routine, expect, r
+
+    with ThreadPoolExecutor(max_workers=max(1, lib.NCPU // 2)) as ex:
+        for routine, expect, r in ex.map(one, MODEL_ROUTINES):
+            refuted = "OldOrNew" in r["invariant_violated"]
+            ctx.cov["states"] += r["distinct"]
+            ctx.cov["transitions"] += r["generated"]
+            res[routine] = {"refuted": refuted, "expected_refuted": expect, "distinct_states": r["distinct"]}
+            for p in r["tagged"].get("PROTOCOL", []):
+                shapes.setdefault(routine, {}).setdefault(p["save"], []).append(p["steps"])
+            if refuted:
+                # the counterexample is a candidate only; keep its last lines for the evidence file
+                m = re.search(r"Error: Invariant OldOrNew is violated\..*?(?=\n\d+ states generated)", r["text"], re.S)
+                res[routine]["counterexample_tail"] = (m.group(0) if m else "")[-1500:]
+            if refuted != expect:
+                # a model that disagrees with its documented expectation is a modelling problem, not a verdict
+                res[routine]["unexpected"] = True
+    ctx.stage("model", **{k: ("refuted" if v["refuted"] else "holds") for k, v in res.items()})
+    ctx.cov["model_level"] = res
+    return shapes
+
+
+def gen_cases(ctx, plan):
+    """TLC enumerates the histories; plan: [(routine, depth, maxsaves, params-list)]"""
+    cases = []
+
+    def one(item):
+        routine, depth, maxsaves, _ = item
+        cfg = ctx.path(f"gen_{routine}.cfg")
+        lib.write_cfg(cfg, dict(FS_CONSTS, Routine=f'"{routine}"', MaxSaves=maxsaves, Strict="FALSE", D=depth),
+                      "GInit", "GNext", invariants=["EmitCase"])
+        out = ctx.path(f"cases_{routine}.ndjson")
+        r = lib.tlc(ctx, MODULE_MC, cfg, workers=2, timeout=600, tagged_out={"PROGRAM": out}, heap="2g")
+        return item, out, r
+
+    with ThreadPoolExecutor(max_workers=max(1, lib.NCPU // 2)) as ex:
+        for (routine, depth, maxsaves, params), out, r in ex.map(one, plan):
+            ctx.cov["states"] += r["distinct"]
+            ctx.cov["transitions"] += r["generated"]
+            progs = sorted(set(lib.read_lines(out)))
+            k = 0
+            for line in progs:
+                p = json.loads(line)
+                for par in params:
+                    k += 1
+                    cases.append(dict(p, id=f"{routine}-{k:05d}", **par))
+            ctx.stage("cases", routine=routine, depth=depth, max_saves=maxsaves, histories=len(progs), cases=k, wall_s=r["wall_s"])
+    return cases
+
+
+# --------------------------------------------------------------------------- stage 2: histories under strace
+def run_histories(ctx, cases, ctxdir, tag="h"):
+    """drv_crash history under strace, sharded; -> {case id: CaseLog}"""
+    shards = max(1, min(lib.NCPU, len(cases) // 8 + 1))
+    per = (len(cases) + shards - 1) // shards
+    jobs = []
+    for i in range(shards):
+        chunk = cases[i * per:(i + 1) * per]
+        if not chunk:
+            continue
+        cp = ctx.path(f"{tag}_cases_{i}.ndjson")
+        open(cp, "w").write("\n".join(json.dumps(c) for c in chunk) + "\n")
+        jobs.append((cp, ctx.path(f"{tag}_strace_{i}.log")))
+
+    def one(job):
+        cp, lp = job
+        cmd = ["strace", "-f", "-y", "-xx", "-s", "4000000", "-e", "trace=" + TRACED, "-o", lp,
+               lib.bin_path("drv_crash"), "history", "--cases", cp, "--ctx", ctxdir]
+        try:
+            r = subprocess.run(cmd, stdout=subprocess.PIPE, stderr=subprocess.PIPE, text=True, timeout=1500)
+        except subprocess.TimeoutExpired:
+            raise lib.ToolError("drv_crash history timed out")
+        if r.returncode != 0:
+            lib.log(r.stderr[-3000:])
+            raise lib.ToolError(f"drv_crash history (under strace) exited {r.returncode}")
+        logs = parse_strace(lp, ctxdir)
+        os.remove(lp)
+        return logs
+
+    t = time.time()
+    allc = {}
+    with ThreadPoolExecutor(max_workers=len(jobs)) as ex:
+        for logs in ex.map(one, jobs):
+            allc.update(logs)
+    missing = [c["id"] for c in cases if c["id"] not in allc]
+    if missing:
+        raise Inconclusive(f"no system-call window recorded for cases {missing[:5]}")
+    for cid, c in allc.items():
+        json.dump({"writes": c.writes}, open(os.path.join(ctxdir, cid, "events.json"), "w"))
+    ctx.stage("history", cases=len(allc), fs_events=sum(len(c.events) for c in allc.values()), wall_s=round(time.time() - t, 2))
+    return allc
+
+
+# --------------------------------------------------------------------------- stage 3: scenarios (T_CrashFS)
+def gen_scenarios(ctx, cases, logs, strict, fs_consts, tag):
+    """one TLC run per chunk of cases; -> path of the scenario file (sorted by case), counts"""
+    ids = [c["id"] for c in cases]
+    nchunks = max(1, min(lib.NCPU, len(ids) // 6 + 1))
+    per = (len(ids) + nchunks - 1) // nchunks
+    jobs = []
+    for i in range(nchunks):
+        chunk = ids[i * per:(i + 1) * per]
+        if not chunk:
+            continue
+        tp = ctx.path(f"{tag}_fs_{i}.ndjson")
+        with open(tp, "w") as f:
+            for cid in chunk:
+                c = logs[cid]
+                f.write(json.dumps({"op": "new", "case": cid, "files": c.files, "dirs": c.dirs}) + "\n")
+                for e in c.events:
+                    f.write(json.dumps(e) + "\n")
+        jobs.append((i, tp))
+    cfg = ctx.path(f"{tag}_fs.cfg")
+    lib.write_cfg(cfg, dict(fs_consts, Strict="TRUE" if strict else "FALSE"), "TInit", "TNext", invariants=["Emit", "Fin"], view="View")
+
+    def one(job):
+        i, tp = job
+        out = ctx.path(f"{tag}_scn_{i}.ndjson")
+        r = lib.tlc(ctx, MODULE_FS, cfg, workers=2, timeout=1500, env={"TRACE": tp}, tagged_out={"SCENARIO": out}, heap="3g")
+        fin = r["tagged"].get("FSDONE")
+        if not fin:
+            lib.log(r["text"][-3000:])
+            raise lib.ToolError("T_CrashFS did not reach the end of the trace")
+        if fin[-1]["bad"]:
+            lines = lib.read_lines(tp)
+            raise Inconclusive(f"T_CrashFS could not apply events: {[lines[k - 1] for k in fin[-1]['bad'][:3]]}")
+        return out, r
+
+    t = time.time()
+    total = ctx.path(f"{tag}_scenarios.ndjson")
+    gen = dist = n = 0
+    with ThreadPoolExecutor(max_workers=max(1, lib.NCPU // 2)) as ex, open(total, "w") as tf:
+        for out, r in ex.map(one, jobs):
+            gen += r["generated"]
+            dist += r["distinct"]
+            lines = lib.read_lines(out)
+            lines.sort(key=lambda s: (json.loads(s)["case"], json.loads(s)["pos"], hashlib.md5(s.encode()).hexdigest()))
+            n += len(lines)
+            tf.write("\n".join(lines) + ("\n" if lines else ""))
+            os.remove(out)
+    ctx.cov["states"] += dist
+    ctx.cov["transitions"] += gen
+    ctx.stage("scenarios", mode="dirops_prefix" if strict else "c06", crash_states_generated=gen, distinct_states=dist, scenarios=n,
+              wall_s=round(time.time() - t, 2))
+    return total, n, gen
+
+
+# --------------------------------------------------------------------------- stage 4+5: recover, judge
+def run_recover(ctx, scn_path, ctxdir, trace):
+    d = lib.run_sharded(ctx, "drv_crash", scn_path, trace, extra_args=["--ctx", ctxdir], shards=lib.NCPU,
+                        prog_flag="--scenarios", out_flag="--out")
+    return d
+
+
+def judge_trace(ctx, trace, source, kd):
+    cfg = ctx.path("t_judge.cfg")
+    lib.write_cfg(cfg, {"KnownDeviations": lib.tla_set(kd)}, "TInit", "TNext", invariants=["Done"])
+    v = lib.judge(ctx, MODULE_J, cfg, trace, max_events=max(2000, sum(1 for _ in open(trace)) // (2 * lib.NCPU)))
+    ctx.stage("judge", source=source, events=v["events"], violations=len(v["violations"]), deviations=len(v["deviations"]),
+              rec_old=v.get("rec_old", 0), rec_new=v.get("rec_new", 0), rec_same=v.get("rec_same", 0),
+              strict_nonconforming=v.get("strict_nonconforming", 0), wall_s=v["wall_s"])
+    return v
+
+
+# --------------------------------------------------------------------------- shapes (model vs observed; informational)
+def _units(steps):
+    """split a step list at every open/mkdir that follows a non-open step; normalise file names by first appearance"""
+    units, cur = [], []
+    for s in steps:
+        if s.split(":")[0] in ("open", "mkdir") and cur and cur[-1].split(":")[0] not in ("open", "mkdir"):
+            units.append(cur)
+            cur = []
+        if cur and s.startswith("write:") and cur[-1] == s:
+            continue
+        cur.append(s)
+    if cur:
+        units.append(cur)
+    out = set()
+    for u in units:
+        names = {}
+
+        def nm(x):
+            return names.setdefault(x, f"f{len(names) + 1}")
+        norm = []
+        for s in u:
+            op, rest = s.split(":", 1)
+            if op == "rename":
+                a, b = rest.split(">")
+                norm.append(f"rename:{nm(a)}>{nm(b)}")
+            else:
+                norm.append(f"{op}:{nm(rest)}")
+        out.add(" ".join(norm))
+    return out
+
+
+def observed_steps(clog):
+    st = []
+    for e in clog.events:
+        if e["op"] == "rename":
+            st.append(f"rename:{e['from']}>{e['to']}")
+        else:
+            st.append(f"{e['op']}:{e.get('name', '')}")
+    return st
+
+
+def compare_shapes(ctx, shapes, cases, logs):
+    model_units = {}
+    for routine, per_save in shapes.items():
+        drv = "lru" if routine.startswith("lru") and routine != "lru_fixed" else routine
+        if routine == "lru_fixed":
+            continue
+        for variants in per_save.values():
+            for steps in variants:
+                model_units.setdefault(drv, set()).update(_units(steps))
+    mism = {}
+    for c in cases:
+        obs = _units(observed_steps(logs[c["id"]]))
+        extra = obs - model_units.get(c["routine"], set())
+        for u in extra:
+            mism.setdefault(c["routine"], {}).setdefault(u, c["id"])
+    ctx.cov["model_shape_mismatch"] = {r: [{"unit": u, "first_case": cid} for u, cid in sorted(m.items())][:8] for r, m in mism.items()}
+    ctx.stage("shapes", routines_with_unmodelled_step_sequences=sorted(mism))
+
+
+# --------------------------------------------------------------------------- classification / replay
+def classify(ctx, v, trace, source, max_reports=5):
+    for _, fid in v["deviations"]:
+        lib.note_known(ctx, fid)
+        ctx.cov["deviations_observed"][fid] = ctx.cov["deviations_observed"].get(fid, 0) + 1
+    if not v["violations"]:
+        return
+    lines = lib.read_lines(trace)
+    seen = set()
+    for ln in v["violations"]:
+        s, e = lib.run_of_line(lines, ln)
+        hdr = json.loads(lines[s])
+        if hdr.get("case") in seen:
+            continue
+        seen.add(hdr.get("case"))
+        if len(seen) > max_reports:
+            break
+        ev = json.loads(lines[ln - 1])
+        what = (f"{source}: case {hdr.get('case')} ops={hdr.get('ops')}: crash at position {ev.get('pos')} with "
+                f"{[(f['name'], f['cls'], f['len']) for f in ev.get('disk', [])]} recovered to ok={ev.get('res', {}).get('ok')} "
+                f"proj={ev.get('res', {}).get('proj')} (old={hdr.get('old', {}).get('proj')}, new={hdr.get('new', {}).get('proj')}), "
+                f"resave={ev.get('resave')}")
+        lib.report_violation(ctx, what, {
+            "property": PROP, "source": source, "program": {"case": hdr.get("def")},
+            "scenario": {"pos": ev.get("pos"), "mode": ev.get("mode"), "dirs": ev.get("dirs"), "disk": ev.get("disk")},
+            "header": hdr, "offending_event": ev,
+            "explanation": "the real recovery on this post-crash directory failed, or showed a state that is neither the complete "
+                           "old nor the complete new one for some object, or the store could not be saved and reloaded afterwards; "
+                           "no listed deviation explains it"})
+    ctx.cov["violating_cases"] = ctx.cov.get("violating_cases", 0) + len(seen)
+
+
+def pipeline(ctx, cases, kd, tag, fs_consts, strict=False, source="cases"):
+    """cases -> (verdict, trace path, number of scenarios)"""
+    ctxdir = ctx.path(f"{tag}_ctx")
+    os.makedirs(ctxdir, exist_ok=True)
+    logs = run_histories(ctx, cases, ctxdir, tag=tag)
+    scn, n, gen = gen_scenarios(ctx, cases, logs, strict, fs_consts, tag)
+    trace = ctx.path(f"{tag}_trace.ndjson")
+    d = run_recover(ctx, scn, ctxdir, trace)
+    ctx.stage("recover", scenarios=d.get("programs"), events=d.get("events"), hangs=d.get("hangs"), wall_s=d["wall_s"])
+    if d.get("programs") != n:
+        raise lib.ToolError(f"driver executed {d.get('programs')} of {n} scenarios")
+    v = judge_trace(ctx, trace, source, kd)
+    return v, trace, scn, n, gen, logs, ctxdir
+
+
+def replay(ctx, kd):
+    obj = json.load(open(ctx.replay))
+    case = dict(obj["program"]["case"])
+    case.setdefault("id", "replay-1")
+    consts = dict(FS_CONSTS)
+    v, trace, scn, n, gen, logs, _ = pipeline(ctx, [case], kd, "rp", consts, strict=(obj.get("scenario", {}).get("mode") == "dirops_prefix"),
+                                              source="replay")
+    lines = lib.read_lines(trace)
+    print(lines[0])
+    for ln in v["violations"][:10]:
+        print(lines[ln - 1])
+    print(json.dumps({k: v[k] for k in v if k != "deviations"} | {"deviations": len(v["deviations"])}))
+    if obj.get("scenario", {}).get("mode") == "dirops_prefix":
+        return 0
+    return 1 if v["violations"] else 0
+
+
+# --------------------------------------------------------------------------- binding self-test
+def selftest(ctx, trace, kd, cases, logs, ctxdir, fs_consts):
+    lines = lib.read_lines(trace)
+    # a run of a routine without deviations, short enough
+    s = next(i for i, l in enumerate(lines) if lib.is_new(l) and json.loads(l)["routine"] in ("disk", "index", "res"))
+    e = s + 1
+    while e < len(lines) and not lib.is_new(lines[e]) and e - s < 400:
+        e += 1
+    base = lines[s:e]
+    p0 = ctx.path("st_0.ndjson"); open(p0, "w").write("\n".join(base) + "\n")
+    cfg = ctx.path("t_judge.cfg")
+    v0 = lib.tlc_trace(ctx, MODULE_J, cfg, p0)
+    # (a) corrupt one recorded projection
+    ia = next(i for i in range(1, len(base)) if json.loads(base[i])["res"]["ok"])
+    ea = json.loads(base[ia])
+    ea["res"]["proj"] = {k: v + "#" for k, v in ea["res"]["proj"].items()} or {"ghost": "x"}
+    la = list(base); la[ia] = json.dumps(ea, separators=(",", ":"))
+    pa = ctx.path("st_a.ndjson"); open(pa, "w").write("\n".join(la) + "\n")
+    va = lib.tlc_trace(ctx, MODULE_J, cfg, pa)
+    # (b) drop one event
+    ib = min(len(base) - 2, max(1, len(base) // 2))
+    lb = list(base); del lb[ib]
+    pb = ctx.path("st_b.ndjson"); open(pb, "w").write("\n".join(lb) + "\n")
+    vb = lib.tlc_trace(ctx, MODULE_J, cfg, pb)
+    ok_a = (ia + 1) in va["violations"] and (ia + 1) not in v0["violations"]
+    ok_b = (ib + 1) in vb["violations"] and len(vb["violations"]) > len(v0["violations"])
+    # (c) binding G: remove the fsync calls from a recorded residency / index trace -> the scenarios that FS.tla then
+    #     admits (torn file under its final name) must be judged violations when the REAL loaders see them
+    cand = [c for c in cases if c["routine"] in ("res", "index") and sum(1 for o in c["ops"] if o in ("save", "flush")) >= 2
+            and any(x["op"] == "fsync" for x in logs[c["id"]].events) and len(logs[c["id"]].files) >= 1]
+    ok_c = None
+    if cand:
+        c = dict(cand[len(cand) // 2])
+        clog = logs[c["id"]]
+        keep = clog.events
+        clog.events = [x for x in keep if x["op"] != "fsync"]
+        try:
+            scn, n, gen = gen_scenarios(ctx, [c], {c["id"]: clog}, False, fs_consts, "stc")
+        finally:
+            clog.events = keep
+        tr = ctx.path("stc_trace.ndjson")
+        run_recover(ctx, scn, ctxdir, tr)
+        vc = lib.judge(ctx, MODULE_J, cfg, tr, max_events=40000)
+        ok_c = len(vc["violations"]) > 0
+    res = {"corrupt_one_field_flagged": ok_a, "drop_one_event_flagged": ok_b, "trace_without_fsync_yields_violations": ok_c}
+    ctx.cov["binding_selftest"] = res
+    if not (ok_a and ok_b and ok_c is not False):
+        raise lib.ToolError(f"binding self-test failed: {res}")
+
+
+# --------------------------------------------------------------------------- main
+def scenario_stats(scn_path, cases):
+    by_id = {c["id"]: c for c in cases}
+    seen = set()
+    nontrivial = 0
+    per_routine = {}
+    with open(scn_path) as f:
+        for line in f:
+            s = json.loads(line)
+            c = by_id[s["case"]]
+            desc = json.dumps([c["routine"], c["ops"], {k: v for k, v in c.items() if k not in ("id", "routine", "ops")},
+                               sorted((re.sub(r"\.\d+\.\d+\.tmp$", ".N.tmp", x["name"]), x["cls"], x["len"], json.dumps(x["parts"])) for x in s["files"]),
+                               sorted(s["dirs"])])
+            h = hashlib.md5(desc.encode()).digest()
+            if h in seen:
+                continue
+            seen.add(h)
+            nt = s["pos"] > 0 and any(x["born"] or x["cls"] != "durable" for x in s["files"])
+            if nt:
+                nontrivial += 1
+            r = per_routine.setdefault(c["routine"], {"scenarios": 0, "nontrivial": 0})
+            r["scenarios"] += 1
+            r["nontrivial"] += int(nt)
+    return len(seen), nontrivial, per_routine
+
+
+def run(ctx):
+    kd = known_findings(ctx)
+    lib.build(["drv_crash"])
+    if ctx.replay:
+        return replay(ctx, kd)
+    consts = dict(FS_CONSTS, SampleSeed=ctx.seed % 100000)
+    if ctx.quick:
+        plan = [("lru", 4, 3, [{"cap": 4}]),
+                ("index", 3, 3, [{}]),
+                ("res", 4, 3, [{"nb": 1}]),
+                ("disk", 3, 3, [{"subdirs": True}, {"subdirs": False}]),
+                ("journal", 4, 3, [{}])]
+        nstrict = 2
+    else:
+        consts["SampleN"] = 40
+        plan = [("lru", 5, 3, [{"cap": 4}, {"cap": 1}]),
+                ("index", 4, 3, [{}]),
+                ("res", 5, 3, [{"nb": 1}, {"nb": 3}]),
+                ("disk", 4, 3, [{"subdirs": True}, {"subdirs": False}]),
+                ("journal", 6, 3, [{}])]
+        nstrict = 6
+    shapes = model_check(ctx)
+    cases = gen_cases(ctx, plan)
+    v, trace, scn, n, gen, logs, ctxdir = pipeline(ctx, cases, kd, "c", consts, source=f"MC_CrashSave histories x T_CrashFS scenarios seed={ctx.seed}")
+    compare_shapes(ctx, shapes, cases, logs)
+    classify(ctx, v, trace, "crash scenarios")
+    distinct, nontrivial, per_routine = scenario_stats(scn, cases)
+    # samples: one non-trivial scenario per routine with what the real recovery showed
+    lines = lib.read_lines(trace)
+    seen_r = set()
+    hdr = None
+    for l in lines:
+        e = json.loads(l)
+        if e["op"] == "new":
+            hdr = e
+            continue
+        if hdr["routine"] in seen_r or e["pos"] == 0 or all(f["cls"] == "durable" for f in e["disk"]):
+            continue
+        seen_r.add(hdr["routine"])
+        ctx.cov["samples"].append({"case": hdr["def"], "crash_position": e["pos"],
+                                   "post_crash_directory": [{k: f[k] for k in ("name", "cls", "len", "vlen", "dlen")} for f in e["disk"]],
+                                   "recovered": e["res"], "old": hdr["old"]["proj"], "new": hdr["new"]["proj"], "resave": e["resave"]})
+    ctx.cov["roundtrip_mismatch_cases"] = sum(1 for l in lines if lib.is_new(l) and not json.loads(l)["roundtrip_same"])
+    selftest(ctx, trace, kd, cases, logs, ctxdir, consts)
+    # informational: the stricter crash model (only a prefix of the directory operations is durable)
+    by_r = {}
+    for c in cases:
+        by_r.setdefault(c["routine"], []).append(c)
+    sub = []
+    for r, cs in sorted(by_r.items()):
+        cs = sorted(cs, key=lambda c: (-len(c["ops"]), c["id"]))
+        sub += cs[:nstrict]
+    sub = [dict(c, id="s" + c["id"]) for c in sub]
+    coarse = dict(consts, FineLimit=0, SampleN=2)
+    vs, _, _, ns, _, _, _ = pipeline(ctx, sub, kd, "s", coarse, strict=True, source="DirOpsPrefix (informational)")
+    ctx.cov["dirops_prefix_informational"] = {"cases": len(sub), "scenarios": ns, "nonconforming": vs.get("strict_nonconforming", 0),
+                                              "note": "stricter crash model than the property states; never a violation"}
+    if vs["violations"]:
+        raise lib.ToolError("the informational run reported hard violations (sequence gap?)")
+    ctx.cov["traces_validated_against_impl"] = len(cases)
+    ctx.cov["evaluations"] = n
+    ctx.cov["distinct_nontrivial"] = nontrivial
+    ctx.cov["distinct_scenarios"] = distinct
+    ctx.cov["crash_instant_x_outcome_pairs"] = gen
+    ctx.cov["per_routine"] = per_routine
+    ctx.cov["recovered_as"] = {"old": v.get("rec_old", 0), "new_or_per_object_mix_of_old_and_new": v.get("rec_new", 0), "old_equals_new": v.get("rec_same", 0)}
+    ctx.cov["exhaustive"] = True
+    ctx.cov["exhaustive_scope"] = ("every history over the driver alphabet up to the listed depth (<= 3 saves) per routine; per history every position "
+                                   "of the recorded system-call sequence x every outcome of the un-synced files: every prefix length for files "
+                                   f"<= {consts['FineLimit']} bytes, write boundaries +-1 and {consts['SampleN']} seeded lengths per write above, zero-fill, stale bytes")
+    ctx.assumptions += ["strace reports the save's system calls completely and in order; the sandbox state before the save is durable",
+                        "the crash model is the one the property names: directory operations that were executed have happened; un-synced content is a "
+                        "prefix of the un-synced operations, zero-filled, or stale (per file; several un-synced files: every outcome of one x {full, zeros, stale} of the others)",
+                        "Old / New are what the same recovery code shows on the directory before the save / after the completed save",
+                        "TLC, the CommunityModules JSON reader and the driver's projections through the public API are trusted"]
+    return lib.finish(ctx, "fault_enumeration",
+                      rule="cases = operation histories enumerated by TLC (MC_CrashSave) and executed with the real API; the last save of each runs under strace; "
+                           "T_CrashFS (TLC over FS.tla) turns the recorded system calls into post-crash directories; evaluations = directories built byte-exactly "
+                           "on which the real recovery ran; distinct = md5 of (history, parameters, directory description), non-trivial = crash strictly inside the save "
+                           "with a directory that differs from the pre-save one (a file created by the save or with un-synced content)")
